@@ -1,26 +1,721 @@
-//! Resolved-tree type monitor (C07/C08). Filled in below.
+//! Resolved-tree type monitor (C07): walks `resolved::Declaration`s of an
+//! accepted module and asserts the "no implicit conversion" rules at every
+//! node. It shares no code with the typer/resolver: types are compared
+//! structurally (structure names by name), operator classes come from the
+//! property text.
 
-use penne::alpha::resolved;
+use std::collections::HashMap;
+
+use penne::alpha::resolved::*;
+
 use serde_json::{Value, json};
 
 #[derive(Default)]
 pub struct Stats
 {
-	pub nodes: u64,
+	counts: HashMap<&'static str, u64>,
+	recorded: HashMap<String, u64>,
 }
 
 impl Stats
 {
+	fn hit(&mut self, k: &'static str)
+	{
+		*self.counts.entry(k).or_insert(0) += 1;
+	}
+
+	fn record(&mut self, k: String)
+	{
+		*self.recorded.entry(k).or_insert(0) += 1;
+	}
+
 	pub fn to_json(&self) -> Value
 	{
-		json!({"nodes": self.nodes})
+		json!({"checked": self.counts, "recorded": self.recorded})
+	}
+}
+
+/// Structural rendering of a type; two types are "identical" iff equal strings.
+fn ty(t: &ValueType) -> String
+{
+	use penne::alpha::value_type::ValueType as VT;
+	match t
+	{
+		VT::Void => "void".into(),
+		VT::Int8 => "i8".into(),
+		VT::Int16 => "i16".into(),
+		VT::Int32 => "i32".into(),
+		VT::Int64 => "i64".into(),
+		VT::Int128 => "i128".into(),
+		VT::Uint8 => "u8".into(),
+		VT::Uint16 => "u16".into(),
+		VT::Uint32 => "u32".into(),
+		VT::Uint64 => "u64".into(),
+		VT::Uint128 => "u128".into(),
+		VT::Usize => "usize".into(),
+		VT::Char8 => "char8".into(),
+		VT::Bool => "bool".into(),
+		VT::Array {
+			element_type,
+			length,
+		} => format!("[{}]{}", length, ty(element_type)),
+		VT::ArrayWithNamedLength {
+			element_type,
+			named_length,
+		} => format!("[{}]{}", named_length.name, ty(element_type)),
+		VT::Slice { element_type } => format!("[:]{}", ty(element_type)),
+		VT::SlicePointer { element_type } =>
+		{
+			format!("&[:]{}", ty(element_type))
+		}
+		VT::EndlessArray { element_type } =>
+		{
+			format!("[..]{}", ty(element_type))
+		}
+		VT::Arraylike { element_type } => format!("[]{}", ty(element_type)),
+		VT::Struct { identifier } => format!("struct {}", identifier.name),
+		VT::Word {
+			identifier,
+			size_in_bytes,
+		} => format!("word{} {}", size_in_bytes * 8, identifier.name),
+		VT::UnresolvedStructOrWord { identifier } => format!(
+			"unresolved {}",
+			identifier.as_ref().map(|i| i.name.as_str()).unwrap_or("?")
+		),
+		VT::Pointer { deref_type } => format!("&{}", ty(deref_type)),
+		VT::View { deref_type } => format!("({})", ty(deref_type)),
+	}
+}
+
+/// The "shape" a documented coercion may not change: wrappers (pointer,
+/// view) are peeled, every array form becomes `arr of <element>`.
+fn coercion_core(t: &ValueType) -> String
+{
+	use penne::alpha::value_type::ValueType as VT;
+	match t
+	{
+		VT::Pointer { deref_type } => coercion_core(deref_type),
+		VT::View { deref_type } => coercion_core(deref_type),
+		VT::Array { element_type, .. }
+		| VT::ArrayWithNamedLength { element_type, .. }
+		| VT::Slice { element_type }
+		| VT::SlicePointer { element_type }
+		| VT::EndlessArray { element_type }
+		| VT::Arraylike { element_type } =>
+		{
+			format!("arr {}", coercion_core(element_type))
+		}
+		other => ty(other),
+	}
+}
+
+fn is_arraylike_or_struct(t: &ValueType) -> bool
+{
+	use penne::alpha::value_type::ValueType as VT;
+	match t
+	{
+		VT::Pointer { deref_type } => is_arraylike_or_struct(deref_type),
+		VT::View { deref_type } => is_arraylike_or_struct(deref_type),
+		VT::Array { .. }
+		| VT::ArrayWithNamedLength { .. }
+		| VT::Slice { .. }
+		| VT::SlicePointer { .. }
+		| VT::EndlessArray { .. }
+		| VT::Arraylike { .. }
+		| VT::Struct { .. } => true,
+		_ => false,
+	}
+}
+
+fn is_int(t: &ValueType) -> bool
+{
+	t.is_integral()
+}
+
+fn is_unsigned_fixed(t: &ValueType) -> bool
+{
+	t.is_bitfield()
+}
+
+fn is_pointerish(t: &ValueType) -> bool
+{
+	use penne::alpha::value_type::ValueType as VT;
+	matches!(t, VT::Pointer { .. } | VT::SlicePointer { .. } | VT::View { .. })
+}
+
+struct Ctx<'a>
+{
+	reports: &'a mut Vec<Value>,
+	stats: &'a mut Stats,
+	vars: HashMap<u32, ValueType>,
+	funcs: HashMap<u32, (Vec<ValueType>, Option<ValueType>)>,
+	structs: HashMap<String, Vec<ValueType>>,
+	function: String,
+}
+
+impl<'a> Ctx<'a>
+{
+	fn report(&mut self, rule: &str, detail: String)
+	{
+		if self.reports.len() < 20
+		{
+			self.reports.push(json!({
+				"rule": rule,
+				"function": self.function,
+				"detail": detail,
+			}));
+		}
+	}
+
+	fn same(&mut self, rule: &'static str, a: &ValueType, b: &ValueType, what: &str)
+	{
+		self.stats.hit(rule);
+		if ty(a) != ty(b)
+		{
+			self.report(rule, format!("{}: `{}` vs `{}`", what, ty(a), ty(b)));
+		}
 	}
 }
 
 pub fn check(
-	_decls: &[resolved::Declaration],
-	_reports: &mut Vec<Value>,
-	_stats: &mut Stats,
+	decls: &[Declaration],
+	reports: &mut Vec<Value>,
+	stats: &mut Stats,
 )
 {
+	let mut ctx = Ctx {
+		reports,
+		stats,
+		vars: HashMap::new(),
+		funcs: HashMap::new(),
+		structs: HashMap::new(),
+		function: String::new(),
+	};
+	for d in decls
+	{
+		match d
+		{
+			Declaration::Constant {
+				name, value_type, ..
+			} =>
+			{
+				ctx.vars.insert(name.resolution_id, value_type.clone());
+			}
+			Declaration::Function {
+				name,
+				parameters,
+				return_type,
+				..
+			}
+			| Declaration::FunctionHead {
+				name,
+				parameters,
+				return_type,
+				..
+			} =>
+			{
+				let params =
+					parameters.iter().map(|p| p.value_type.clone()).collect();
+				ctx.funcs
+					.insert(name.resolution_id, (params, return_type.clone()));
+			}
+			Declaration::Structure { name, members, .. } =>
+			{
+				ctx.structs.insert(
+					name.name.clone(),
+					members.iter().map(|m| m.value_type.clone()).collect(),
+				);
+			}
+		}
+	}
+	for d in decls
+	{
+		match d
+		{
+			Declaration::Constant {
+				name,
+				value,
+				value_type,
+				..
+			} =>
+			{
+				ctx.function = format!("const {}", name.name);
+				expr(&mut ctx, value);
+				let vt = value.value_type();
+				ctx.same("constant_initialiser", value_type, &vt, &name.name);
+			}
+			Declaration::Function {
+				name,
+				parameters,
+				body,
+				return_type,
+				..
+			} =>
+			{
+				ctx.function = name.name.clone();
+				for p in parameters
+				{
+					ctx.vars.insert(p.name.resolution_id, p.value_type.clone());
+				}
+				for s in &body.statements
+				{
+					stmt(&mut ctx, s);
+				}
+				match (&body.return_value, return_type)
+				{
+					(Some(v), Some(rt)) =>
+					{
+						expr(&mut ctx, v);
+						let vt = v.value_type();
+						ctx.same("return_value", rt, &vt, "return");
+					}
+					(Some(v), None) =>
+					{
+						expr(&mut ctx, v);
+						ctx.stats.hit("return_value");
+						ctx.report(
+							"return_value",
+							"value returned from void function".into(),
+						);
+					}
+					(None, Some(rt)) =>
+					{
+						ctx.stats.hit("return_value");
+						if !rt.is_void()
+						{
+							ctx.report(
+								"return_value",
+								format!("no value for return type `{}`", ty(rt)),
+							);
+						}
+					}
+					(None, None) => (),
+				}
+			}
+			_ => (),
+		}
+	}
+}
+
+fn stmt(ctx: &mut Ctx, s: &Statement)
+{
+	match s
+	{
+		Statement::Declaration {
+			name,
+			value,
+			value_type,
+		} =>
+		{
+			ctx.vars.insert(name.resolution_id, value_type.clone());
+			if let Some(v) = value
+			{
+				expr(ctx, v);
+				let vt = v.value_type();
+				ctx.same("initialisation", value_type, &vt, &name.name);
+			}
+		}
+		Statement::Assignment { reference, value } =>
+		{
+			expr(ctx, value);
+			reference_indices(ctx, reference);
+			match reference_type(ctx, reference)
+			{
+				Some(target) =>
+				{
+					let vt = value.value_type();
+					ctx.same("assignment", &target, &vt, &reference.base.name);
+				}
+				None =>
+				{
+					ctx.stats.hit("assignment_target_unknown");
+				}
+			}
+		}
+		Statement::EvaluateAndDiscard { value } => expr(ctx, value),
+		Statement::Loop => (),
+		Statement::Goto { .. } => (),
+		Statement::Label { .. } => (),
+		Statement::If {
+			condition,
+			then_branch,
+			else_branch,
+		} =>
+		{
+			comparison(ctx, condition);
+			stmt(ctx, then_branch);
+			if let Some(e) = else_branch
+			{
+				stmt(ctx, e);
+			}
+		}
+		Statement::Block(b) =>
+		{
+			for s in &b.statements
+			{
+				stmt(ctx, s);
+			}
+		}
+	}
+}
+
+fn comparison(ctx: &mut Ctx, c: &Comparison)
+{
+	expr(ctx, &c.left);
+	expr(ctx, &c.right);
+	let l = c.left.value_type();
+	let r = c.right.value_type();
+	ctx.same("comparison_operands", &l, &r, &format!("{:?}", c.op));
+	ctx.same("comparison_type", &c.compared_type, &l, &format!("{:?}", c.op));
+	let ordering = !matches!(c.op, ComparisonOp::Equals | ComparisonOp::DoesNotEqual);
+	ctx.stats.hit("comparison_class");
+	if ordering && is_pointerish(&c.compared_type)
+	{
+		ctx.report(
+			"comparison_class",
+			format!("ordering {:?} on `{}`", c.op, ty(&c.compared_type)),
+		);
+	}
+	if is_arraylike_or_struct(&c.compared_type) && !is_pointerish(&c.compared_type)
+	{
+		ctx.report(
+			"comparison_class",
+			format!("comparison {:?} on `{}`", c.op, ty(&c.compared_type)),
+		);
+	}
+}
+
+fn reference_indices(ctx: &mut Ctx, r: &Reference)
+{
+	for s in &r.steps
+	{
+		if let ReferenceStep::Element { argument, .. } = s
+		{
+			expr(ctx, argument);
+			ctx.stats.hit("index_type");
+			let t = argument.value_type();
+			if ty(&t) != "usize"
+			{
+				ctx.report("index_type", format!("index of type `{}`", ty(&t)));
+			}
+		}
+	}
+}
+
+/// Type of the storage a reference denotes, computed from declared types.
+fn reference_type(ctx: &mut Ctx, r: &Reference) -> Option<ValueType>
+{
+	use penne::alpha::value_type::ValueType as VT;
+	let mut t = ctx.vars.get(&r.base.resolution_id)?.clone();
+	for s in &r.steps
+	{
+		t = match s
+		{
+			ReferenceStep::Element { .. } => t.get_element_type()?,
+			ReferenceStep::Member { offset } => match &t
+			{
+				VT::Struct { identifier } | VT::Word { identifier, .. } =>
+				{
+					ctx.structs.get(&identifier.name)?.get(*offset)?.clone()
+				}
+				_ => return None,
+			},
+			ReferenceStep::Autodeslice { offset } =>
+			{
+				if *offset == 1
+				{
+					VT::Usize
+				}
+				else
+				{
+					t
+				}
+			}
+			ReferenceStep::Autoderef => t.get_pointee_type()?,
+			ReferenceStep::Autoview => t.get_viewee_type()?,
+		};
+	}
+	if r.take_address
+	{
+		t = VT::Pointer {
+			deref_type: Box::new(t),
+		};
+	}
+	Some(t)
+}
+
+fn expr(ctx: &mut Ctx, e: &Expression)
+{
+	match e
+	{
+		Expression::Binary {
+			op,
+			left,
+			right,
+			value_type,
+		} =>
+		{
+			expr(ctx, left);
+			expr(ctx, right);
+			if *op == BinaryOp::AdvancePointer
+			{
+				ctx.stats.hit("pointer_advance");
+				return;
+			}
+			let l = left.value_type();
+			let r = right.value_type();
+			ctx.same("binary_operands", &l, &r, &format!("{:?}", op));
+			ctx.same("binary_result", value_type, &l, &format!("{:?}", op));
+			ctx.stats.hit("binary_class");
+			let ok = match op
+			{
+				BinaryOp::Add
+				| BinaryOp::Subtract
+				| BinaryOp::Multiply
+				| BinaryOp::Divide
+				| BinaryOp::Modulo =>
+				{
+					if ty(&l) == "char8"
+					{
+						ctx.stats.record(format!("arithmetic on char8 ({:?})", op));
+						true
+					}
+					else
+					{
+						is_int(&l)
+					}
+				}
+				BinaryOp::BitwiseAnd
+				| BinaryOp::BitwiseOr
+				| BinaryOp::BitwiseXor
+				| BinaryOp::ShiftLeft
+				| BinaryOp::ShiftRight => is_unsigned_fixed(&l),
+				BinaryOp::AdvancePointer => true,
+			};
+			if !ok
+			{
+				ctx.report(
+					"binary_class",
+					format!("{:?} applied to `{}`", op, ty(&l)),
+				);
+			}
+		}
+		Expression::Unary {
+			op,
+			expression,
+			value_type,
+		} =>
+		{
+			expr(ctx, expression);
+			let t = expression.value_type();
+			ctx.same("unary_result", value_type, &t, &format!("{:?}", op));
+			ctx.stats.hit("unary_class");
+			let ok = match op
+			{
+				UnaryOp::Negative => t.is_signed(),
+				UnaryOp::BitwiseComplement =>
+				{
+					if ty(&t) == "bool"
+					{
+						ctx.stats.record("complement on bool".into());
+						true
+					}
+					else
+					{
+						is_unsigned_fixed(&t)
+					}
+				}
+			};
+			if !ok
+			{
+				ctx.report(
+					"unary_class",
+					format!("{:?} applied to `{}`", op, ty(&t)),
+				);
+			}
+		}
+		Expression::SignedIntegerLiteral { value_type, .. }
+		| Expression::BitIntegerLiteral { value_type, .. } =>
+		{
+			ctx.stats.hit("literal_type");
+			let t = ty(value_type);
+			// booleans are carried as bit literals of type bool in the resolved tree
+			let ok = is_int(value_type)
+				|| t == "char8" || t == "bool"
+				|| is_pointerish(value_type);
+			if !ok
+			{
+				ctx.report("literal_type", format!("integer literal typed `{}`", t));
+			}
+		}
+		Expression::StringLiteral { .. } => (),
+		Expression::ArrayLiteral {
+			elements,
+			element_type,
+		} =>
+		{
+			for x in elements
+			{
+				expr(ctx, x);
+				let t = x.value_type();
+				ctx.same("array_element", element_type, &t, "array literal");
+			}
+		}
+		Expression::Structural {
+			members,
+			structural_type,
+		} =>
+		{
+			use penne::alpha::value_type::ValueType as VT;
+			let declared: Option<Vec<ValueType>> = match structural_type
+			{
+				VT::Struct { identifier } | VT::Word { identifier, .. } =>
+				{
+					ctx.structs.get(&identifier.name).cloned()
+				}
+				_ => None,
+			};
+			for m in members
+			{
+				expr(ctx, &m.expression);
+				if let Some(d) = declared.as_ref().and_then(|d| d.get(m.offset))
+				{
+					let t = m.expression.value_type();
+					let d = d.clone();
+					ctx.same("member_initialiser", &d, &t, &m.name.name);
+				}
+			}
+		}
+		Expression::Parenthesized { inner } => expr(ctx, inner),
+		Expression::Deref {
+			reference,
+			deref_type,
+		} =>
+		{
+			reference_indices(ctx, reference);
+			match reference_type(ctx, reference)
+			{
+				Some(t) =>
+				{
+					ctx.same("deref_type", deref_type, &t, &reference.base.name);
+				}
+				None => ctx.stats.hit("deref_type_unknown"),
+			}
+		}
+		Expression::Autocoerce {
+			expression,
+			coerced_type,
+		} =>
+		{
+			expr(ctx, expression);
+			let from = expression.value_type();
+			ctx.stats.hit("autocoerce");
+			let (cf, ct) = (coercion_core(&from), coercion_core(coerced_type));
+			// strings: arrays of char8 are handed to `[]u8` parameters (and back)
+			// throughout the documentation's FFI examples; recorded, not judged
+			let alias = cf.replace("char8", "u8") == ct.replace("char8", "u8");
+			if alias && cf != ct
+			{
+				ctx.stats.record("char8/u8 array alias".into());
+			}
+			let ok = alias && is_arraylike_or_struct(&from);
+			ctx.stats.record(format!(
+				"coerce {}",
+				if cf.starts_with("arr") { "array" } else { "struct" }
+			));
+			if !ok
+			{
+				ctx.report(
+					"autocoerce",
+					format!(
+						"implicit conversion `{}` -> `{}`",
+						ty(&from),
+						ty(coerced_type)
+					),
+				);
+			}
+		}
+		Expression::BitCast { expression, .. } =>
+		{
+			expr(ctx, expression);
+			ctx.stats.hit("bitcast");
+		}
+		Expression::PrimitiveCast {
+			expression,
+			expression_type,
+			coerced_type,
+		} =>
+		{
+			expr(ctx, expression);
+			let t = expression.value_type();
+			ctx.same("cast_source", expression_type, &t, "as");
+			ctx.stats.hit("cast_pair");
+			let (f, c) = (ty(expression_type), ty(coerced_type));
+			let ok = (is_int(expression_type) && is_int(coerced_type) && f != c)
+				|| (f == "u8" && c == "char8")
+				|| (f == "char8" && c == "u8")
+				|| (f == "bool" && is_int(coerced_type));
+			if !ok
+			{
+				ctx.report("cast_pair", format!("`{}` as `{}`", f, c));
+			}
+		}
+		Expression::LengthOfArray { reference } =>
+		{
+			reference_indices(ctx, reference);
+		}
+		Expression::SizeOf { .. } => (),
+		Expression::FunctionCall {
+			name,
+			arguments,
+			return_type,
+		} =>
+		{
+			for a in arguments
+			{
+				expr(ctx, a);
+			}
+			if let Some((params, ret)) = ctx.funcs.get(&name.resolution_id).cloned()
+			{
+				ctx.stats.hit("call_arity");
+				if params.len() != arguments.len()
+				{
+					ctx.report(
+						"call_arity",
+						format!(
+							"{}: {} arguments for {} parameters",
+							name.name,
+							arguments.len(),
+							params.len()
+						),
+					);
+				}
+				for (p, a) in params.iter().zip(arguments.iter())
+				{
+					let t = a.value_type();
+					ctx.same("call_argument", p, &t, &name.name);
+				}
+				let rt = ret.unwrap_or(ValueType::Void);
+				// a call used as a statement carries `void` (result discarded)
+				if !return_type.is_void()
+				{
+					ctx.same("call_return", &rt, return_type, &name.name);
+				}
+			}
+			else
+			{
+				ctx.stats.hit("call_unknown_function");
+			}
+		}
+		Expression::InlineBlock { statements, value } =>
+		{
+			// compiler-generated (builtins): walked but not judged as user code
+			for s in statements
+			{
+				stmt(ctx, s);
+			}
+			expr(ctx, value);
+		}
+		Expression::Builtin(_) => (),
+	}
 }
